@@ -100,6 +100,8 @@ def job(args):
               (r["backend"].startswith("known-finding"))]
     if failed and S.error is None:
         sizes = range(1, 5) if tier == "quick" else range(1, 7)
+        if not getattr(S, "used_length", False):
+            sizes = []          # concrete-structure script: nothing to concretise
         found = {}
         for n in sizes:
             try:
@@ -123,6 +125,20 @@ def job(args):
                     (fr["clause"] in found) for fr in failed if fr["clause"] in found):
                 if all(found.get(fr["clause"], {}).get("reproduced") for fr in failed if fr["clause"] in found):
                     break
+        # concrete-structure scripts: the proof-mode counter-model already is a concrete input
+        for r in S.results:
+            if r.status == "failed" and r.model is not None:
+                cl = clause_of(r.name, S.label)
+                if cl in found:
+                    continue
+                try:
+                    inputs = S.dump_inputs(r.model)
+                except Exception:
+                    continue
+                if "<symbolic array>" in json.dumps(inputs, default=str):
+                    continue
+                found[cl] = {"clause": cl, "size": None, "inputs": inputs, "replay": {"status": "no-native-adapter"},
+                             "reproduced": False, "known_id": getattr(r, "known_id", None)}
         out["counterexamples"] = list(found.values())
     out["total_wall"] = time.time() - t0
     return out
